@@ -56,6 +56,7 @@ func runC02RealChain(c *core.Ctx) {
 	}
 	c.Event("real chain from %d, %d headers, difficulty on after 150", fx.Start, upTo)
 	mutants := 0
+	competing := false
 	for i := 1; i < upTo; i++ {
 		if i == 150 {
 			repo.EnableDifficulty()
@@ -113,8 +114,32 @@ func runC02RealChain(c *core.Ctx) {
 				c.Fail("c02.refused-header-not-added", field, "a refused mutant of the header at %d is known afterwards", height)
 			}
 		}
+		if i > 160 && !competing && t.Chance(1, 150) {
+			// a competing branch with far more claimed work forks 1-3 blocks below the tip and becomes
+			// the most-work branch (added with the difficulty switch off, as a stand-in for mining):
+			// the real headers that follow extend a branch that is NOT the longest and must still be
+			// judged by their own branch's history
+			competing = true
+			fp := node
+			for k := 0; k < 1+t.Draw(3) && fp.Parent != nil; k++ {
+				fp = fp.Parent
+			}
+			repo.DisableDifficulty()
+			prev := fp.Header
+			for k := 0; k < 1+t.Draw(3); k++ {
+				fh := &wire.BlockHeader{Version: 0x20000000, PrevBlock: model.HeaderHash(prev), Timestamp: prev.Timestamp + uint32(1+t.Draw(4000)), Bits: 0x1500ffff, Nonce: uint32(k)}
+				if err := repo.ProcessHeader(ctx, fh); err != nil {
+					c.Fail("c02.setup", "competing-branch", "could not add the competing branch: %v", err)
+				}
+				prev = fh
+			}
+			repo.EnableDifficulty()
+			c.Event("competing heavier branch from height %d", fp.Height)
+			c.Probe("real-headers-on-non-longest-branch")
+			c.Nontrivial()
+		}
 		if err := repo.ProcessHeader(ctx, h); err != nil {
-			c.Fail("c02.real-chain-accepted", hw.Verdict(err), "real mainnet header at height %d refused: %v", height, err)
+			c.Fail("c02.real-chain-accepted", hw.Verdict(err), "real mainnet header at height %d refused: %v (competing heavier branch present: %v)", height, err, competing)
 			return
 		}
 		node = tree.Mint(node, h, nil)
@@ -292,12 +317,12 @@ func runC02Bits(c *core.Ctx) {
 func init() {
 	core.Register(&core.Property{
 		ID: "C02", Engine: "S", Level: "exploration",
-		Rule: "each run is one of three sequential worlds. (a) real chain: 160 to 860 (thorough: all ~2000/~840) real mainnet headers from the two fixture files go through ProcessHeader with difficulty ON (after the 150 headers the window needs); every real header must be accepted and an independent implementation of the 144 block algorithm must give the chain's own bits; at tape-chosen points a single-field mutant of the next real header (nonce, bits mantissa +-1, bits exponent, timestamp, merkle root, version) or an impostor that passes its own easy proof of work is offered first and must get the reference verdict and not become known. (b) simulated mining: miners with faulty clocks (steady, jitter, ties among consecutive blocks, backwards jumps, fast/slow regimes) extend a real headers.Branch for 150-270 blocks at 5 difficulty levels with self-consistent bits, with forks started inside the 147 block window; Branch.Target->ConvertToBits must equal the reference algorithm for every new height on the main branch, at the fork point and on the fork. (c) bits encodings: headers with exponent byte 0..255 x 7 mantissa classes are submitted after genesis with difficulty ON: never a crash, and canonical encodings get the reference verdict (hash <= target). non-trivial = every run of (b) and (c), runs of (a) with at least one mutant; distinct = distinct hash of the canonical event log",
+		Rule: "each run is one of three sequential worlds. (a) real chain: 160 to 860 (thorough: all ~2000/~840) real mainnet headers from the two fixture files go through ProcessHeader with difficulty ON (after the 150 headers the window needs); every real header must be accepted and an independent implementation of the 144 block algorithm must give the chain's own bits; at tape-chosen points a single-field mutant of the next real header (nonce, bits mantissa +-1, bits exponent, timestamp, merkle root, version) or an impostor that passes its own easy proof of work is offered first and must get the reference verdict and not become known; in some runs a competing branch with more claimed work is planted a few blocks below the tip so that the following real headers extend a branch that is not the most-work one. (b) simulated mining: miners with faulty clocks (steady, jitter, ties among consecutive blocks, backwards jumps, fast/slow regimes) extend a real headers.Branch for 150-270 blocks at 5 difficulty levels with self-consistent bits, with forks started inside the 147 block window; Branch.Target->ConvertToBits must equal the reference algorithm for every new height on the main branch, at the fork point and on the fork. (c) bits encodings: headers with exponent byte 0..255 x 7 mantissa classes are submitted after genesis with difficulty ON: never a crash, and canonical encodings get the reference verdict (hash <= target). non-trivial = every run of (b) and (c), runs of (a) with at least one mutant; distinct = distinct hash of the canonical event log",
 		Real: []string{"headers.Repository.ProcessHeader with difficulty on (real code)", "headers.Branch.Target / MedianTimeAndWork (real code)", "pkg/bitcoin compact bits and work conversion, pkg/wire WorkIsValid (real dependency code)"},
 		Stub: []string{"storage -> simstore", "miners and their clocks -> simulator"},
 		Assumptions: []string{"the arithmetic core is a pure function of the branch history; the simulator contributes the histories (clock faults, fork placement) and sampled inputs, it does not enumerate the 2^32 bits encodings or all 147-header windows",
 			"real proof of work cannot be mined offline, so simulated histories are checked through Branch.Target (exported) rather than through ProcessHeader"},
-		ProbeNames: []string{"real-chain-run", "mutant:nonce", "mutant:bits-mantissa+1", "mutant:bits-mantissa-1", "mutant:bits-exponent", "mutant:timestamp", "mutant:merkle-root", "mutant:version", "mutant:easy-bits", "easy-bits-impostor-passes-own-pow",
+		ProbeNames: []string{"real-chain-run", "mutant:nonce", "mutant:bits-mantissa+1", "mutant:bits-mantissa-1", "mutant:bits-exponent", "mutant:timestamp", "mutant:merkle-root", "mutant:version", "mutant:easy-bits", "easy-bits-impostor-passes-own-pow", "real-headers-on-non-longest-branch",
 			"daa-compared", "timestamp-tie", "timestamp-backwards", "slow-regime", "fork-inside-window", "bits-encoding-submitted", "non-canonical-bits"},
 		Run:          runC02,
 		QuickSeconds: 25, ThoroughSeconds: 900, MinRuns: 200, BatchSize: 20, RunTimeoutSeconds: 240,
